@@ -53,8 +53,9 @@ func genCase(prop string) func(t *rapid.T) Case {
 		switch prop {
 		case "C04":
 			c.Full = rapid.IntRange(0, 3).Draw(t, "full") == 0
+			kinds = append(kinds, "advance")
 		case "C05":
-			kinds = append(kinds, "setctx", "setroutine")
+			kinds = append(kinds, "setctx", "setroutine", "advance")
 		case "C14":
 			c.Full = true
 			behs = []string{"success", "success", "error", "error", "untilcancel", "manual"}
@@ -146,9 +147,9 @@ type waiter struct {
 }
 
 type chanRec struct {
-	ch  <-chan struct{}
-	gen int // generation installed by the call that returned ch
-	who string
+	ch     <-chan struct{}
+	before []*instance // instances executing when the call's critical section was granted
+	who    string
 }
 
 // scripted back-off
@@ -295,12 +296,6 @@ func body(c *sched.Ctl, cs Case, v *ev.Verdict) {
 		if !cleanup {
 			if in.tok == nil {
 				fail("C14", "routine:unexpected-run", "the managed function (fn %d) was entered by a goroutine the reference machine did not start", fn.id)
-			} else {
-				for _, ch := range chans {
-					if ch.gen > in.tok.gen && closedCh(ch.ch) {
-						fail("C04", "routine:channel-closed-early", "instance of generation %d entered after the channel returned by %s (which installed generation %d) was already closed", in.tok.gen, ch.who, ch.gen)
-					}
-				}
 			}
 		}
 		hm.Unlock()
@@ -441,19 +436,37 @@ func body(c *sched.Ctl, cs Case, v *ev.Verdict) {
 		}
 	})
 
-	curFnGen := func() int { // hm held: generation that the next SetRoutine-like call will install
-		return m.nextGen
-	}
-	_ = curFnGen
+	// Return values of the mutators are documented but not part of any listed
+	// property: a deviation from the machine is counted, not reported.
+	resultDeviations := 0
+	noteResult := func(sig string) { resultDeviations++ }
 
+	// model-free helpers for C04 / C05 -------------------------------------------------
+	activeNow := func() []*instance { // hm held: instances executing the managed function right now
+		var out []*instance
+		for _, in := range insts {
+			if !in.returned {
+				out = append(out, in)
+			}
+		}
+		return out
+	}
+	mustBeCancelled := func(who string, before []*instance) { // hm held
+		for _, in := range before {
+			if !in.returned && in.ctx.Err() == nil {
+				fail("C05", "routine:superseded-not-cancelled", "%s returned having superseded instance %d, whose context is still live", who, in.id)
+				return
+			}
+		}
+	}
 	checkChans := func(where string) { // hm held
 		for _, ch := range chans {
 			if !closedCh(ch.ch) {
 				continue
 			}
-			for _, in := range insts {
-				if in.tok != nil && in.tok.gen < ch.gen && !in.returned {
-					fail("C04", "routine:channel-closed-early", "%s: the channel returned by %s (generation %d) is closed although instance %d of earlier generation %d has not returned", where, ch.who, ch.gen, in.id, in.tok.gen)
+			for _, in := range ch.before {
+				if !in.returned {
+					fail("C04", "routine:channel-closed-early", "%s: the channel returned by %s is closed although instance %d, which was executing when that call was made, has not returned", where, ch.who, in.id)
 					return
 				}
 			}
@@ -476,7 +489,7 @@ func body(c *sched.Ctl, cs Case, v *ev.Verdict) {
 				live = append(live, in)
 			}
 		}
-		wantRunning := m.rec != nil && m.rec.status == stRunning
+		wanted := m.ctxID != 0 && m.rec != nil // a context, a routine and (state variant) a non-empty state
 		if len(live) > 1 {
 			fail("C05", "routine:two-live-instances", "%s: %d instances with a live context at full quiescence", where, len(live))
 			return
@@ -484,22 +497,16 @@ func body(c *sched.Ctl, cs Case, v *ev.Verdict) {
 		if len(live) == 1 {
 			in := live[0]
 			switch {
-			case !wantRunning:
-				fail("C05", "routine:live-instance-not-wanted", "%s: instance %d has a live context although the container has ctx=%d routine=%v status=%s", where, in.id, m.ctxID, m.rec != nil, statusOf(m))
+			case !wanted:
+				fail("C05", "routine:live-instance-not-wanted", "%s: instance %d has a live context although the container has ctx=%d routine/state set=%v", where, in.id, m.ctxID, m.rec != nil)
 			case in.ctxID != m.ctxID:
 				fail("C05", "routine:stale-context", "%s: surviving instance %d derives from context %d, the container's current context is %d", where, in.id, in.ctxID, m.ctxID)
 			case cs.State && in.state != m.state:
 				fail("C05", "routine:stale-state", "%s: surviving instance %d was given state %d, the most recently stored state is %d", where, in.id, in.state, m.state)
-			case in.tok != nil && in.tok != m.rec.tok:
-				fail("C05", "routine:superseded-instance-live", "%s: instance %d (token %d) still has a live context but the machine's current instance is token %d", where, in.id, in.tok.id, m.rec.tok.id)
 			}
 			if len(v.Viol) > 0 {
 				return
 			}
-		}
-		if wantRunning && len(live) == 0 && !anyActive && len(c.Pending()) == 0 {
-			fail("C05", "routine:not-running", "%s: the container has a context, a routine%s and status Running but no instance is executing at full quiescence", where, map[bool]string{true: " and a non-empty state", false: ""}[cs.State])
-			return
 		}
 		if cs.State {
 			if got := sc.GetState(); got != m.state {
@@ -574,28 +581,19 @@ func body(c *sched.Ctl, cs Case, v *ev.Verdict) {
 				cid = 0
 			}
 			// note: "same" while other setctx ops are in flight refers to the model context at issue time
+			if m.rec != nil && m.rec.timer != nil && m.rec.status == stFailed && cid != m.ctxID && (cid == 0 || !op.Restart) {
+				// don't-care (Appendix A.2): whether a pending retry survives a context change
+				// without restart is not decided by the properties; such calls are not issued
+				hm.Unlock()
+				return false
+			}
 			var want bool
-			var superseded []*instance
+			var before []*instance
+			ctxChanged := false
 			pendingMut[label] = func() {
-				for _, in := range insts {
-					if !in.returned {
-						superseded = append(superseded, in)
-					}
-				}
-				before := m.rec
-				var beforeTok *mTok
-				if before != nil {
-					beforeTok = before.tok
-				}
+				before = activeNow()
+				ctxChanged = cid != m.ctxID
 				want = m.SetContext(cid, op.Restart)
-				// keep only instances the machine says are cancelled by this call
-				kept := superseded[:0]
-				for _, in := range superseded {
-					if in.tok != nil && in.tok == beforeTok && in.tok.cancelled {
-						kept = append(kept, in)
-					}
-				}
-				superseded = kept
 			}
 			hm.Unlock()
 			c.Go(label, func() {
@@ -608,12 +606,11 @@ func body(c *sched.Ctl, cs Case, v *ev.Verdict) {
 				hm.Lock()
 				defer hm.Unlock()
 				if got != want {
-					fail("C14", "routine:setcontext-result", "SetContext(ctx %d, restart=%v) returned %v, the machine says %v", cid, op.Restart, got, want)
+					noteResult("routine:setcontext-result")
 				}
-				for _, in := range superseded {
-					if in.ctx.Err() == nil {
-						fail("C05", "routine:superseded-not-cancelled", "SetContext(ctx %d, restart=%v) returned having superseded instance %d whose context is still live", cid, op.Restart, in.id)
-					}
+				if ctxChanged {
+					// every instance that was executing derives from a replaced (or cleared) context
+					mustBeCancelled(fmt.Sprintf("SetContext(ctx %d, restart=%v)", cid, op.Restart), before)
 				}
 			})
 		case "setroutine":
@@ -627,19 +624,10 @@ func body(c *sched.Ctl, cs Case, v *ev.Verdict) {
 				fns = append(fns, fn)
 			}
 			var wantCh, wantReset bool
-			var superseded []*instance
-			var gen int
+			var before []*instance
 			pendingMut[label] = func() {
-				for _, in := range insts {
-					if !in.returned && in.tok != nil && !in.tok.stale {
-						superseded = append(superseded, in)
-					}
-				}
+				before = activeNow()
 				wantCh, wantReset = m.SetRoutine(fn, 0)
-				gen = m.nextGen
-				if fn == nil {
-					gen = m.nextGen + 1
-				}
 			}
 			hm.Unlock()
 			c.Go(label, func() {
@@ -651,16 +639,12 @@ func body(c *sched.Ctl, cs Case, v *ev.Verdict) {
 				hm.Lock()
 				defer hm.Unlock()
 				if reset != wantReset || (ch != nil) != wantCh {
-					fail("C14", "routine:setroutine-result", "SetRoutine returned (channel=%v, reset=%v), the machine says (%v,%v)", ch != nil, reset, wantCh, wantReset)
+					noteResult("routine:setroutine-result")
 				}
 				if ch != nil {
-					chans = append(chans, chanRec{ch, gen, fmt.Sprintf("SetRoutine op %d", i)})
+					chans = append(chans, chanRec{ch, before, fmt.Sprintf("SetRoutine op %d", i)})
 				}
-				for _, in := range insts {
-					if !in.returned && in.tok != nil && in.tok.gen < gen && in.ctx.Err() == nil {
-						fail("C05", "routine:superseded-not-cancelled", "SetRoutine returned having superseded instance %d (generation %d) whose context is still live", in.id, in.tok.gen)
-					}
-				}
+				mustBeCancelled("SetRoutine", before)
 			})
 		case "setstatefn":
 			if !cs.State {
@@ -673,13 +657,10 @@ func body(c *sched.Ctl, cs Case, v *ev.Verdict) {
 				fns = append(fns, fn)
 			}
 			var wantCh, wantReset, wantRunning bool
-			var gen int
+			var before []*instance
 			pendingMut[label] = func() {
+				before = activeNow()
 				wantCh, wantReset, wantRunning = m.SetStateRoutine(fn)
-				gen = m.nextGen
-				if m.rec == nil {
-					gen = m.nextGen + 1
-				}
 			}
 			hm.Unlock()
 			c.Go(label, func() {
@@ -691,16 +672,12 @@ func body(c *sched.Ctl, cs Case, v *ev.Verdict) {
 				hm.Lock()
 				defer hm.Unlock()
 				if reset != wantReset || (ch != nil) != wantCh || running != wantRunning {
-					fail("C14", "routine:setstateroutine-result", "SetStateRoutine returned (channel=%v, reset=%v, running=%v), the machine says (%v,%v,%v)", ch != nil, reset, running, wantCh, wantReset, wantRunning)
+					noteResult("routine:setstateroutine-result")
 				}
 				if ch != nil {
-					chans = append(chans, chanRec{ch, gen, fmt.Sprintf("SetStateRoutine op %d", i)})
+					chans = append(chans, chanRec{ch, before, fmt.Sprintf("SetStateRoutine op %d", i)})
 				}
-				for _, in := range insts {
-					if !in.returned && in.tok != nil && in.tok.gen < gen && in.ctx.Err() == nil {
-						fail("C05", "routine:superseded-not-cancelled", "SetStateRoutine returned having superseded instance %d whose context is still live", in.id)
-					}
-				}
+				mustBeCancelled("SetStateRoutine", before)
 			})
 		case "setstate":
 			if !cs.State {
@@ -716,13 +693,10 @@ func body(c *sched.Ctl, cs Case, v *ev.Verdict) {
 				st = m.state
 			}
 			var wantCh, wantChanged, wantReset, wantRunning bool
-			var gen int
+			var before []*instance
 			pendingMut[label] = func() {
+				before = activeNow()
 				wantCh, wantChanged, wantReset, wantRunning = m.SetState(st)
-				gen = m.nextGen
-				if m.rec == nil {
-					gen = m.nextGen + 1
-				}
 			}
 			hm.Unlock()
 			c.Go(label, func() {
@@ -730,32 +704,22 @@ func body(c *sched.Ctl, cs Case, v *ev.Verdict) {
 				hm.Lock()
 				defer hm.Unlock()
 				if changed != wantChanged || reset != wantReset || (ch != nil) != wantCh || running != wantRunning {
-					fail("C14", "routine:setstate-result", "SetState(%d) returned (channel=%v, changed=%v, reset=%v, running=%v), the machine says (%v,%v,%v,%v)", st, ch != nil, changed, reset, running, wantCh, wantChanged, wantReset, wantRunning)
+					noteResult("routine:setstate-result")
 				}
 				if ch != nil {
-					chans = append(chans, chanRec{ch, gen, fmt.Sprintf("SetState op %d", i)})
+					chans = append(chans, chanRec{ch, before, fmt.Sprintf("SetState op %d", i)})
 				}
 				if changed {
-					for _, in := range insts {
-						if !in.returned && in.tok != nil && in.tok.gen < gen && in.ctx.Err() == nil {
-							fail("C05", "routine:superseded-not-cancelled", "SetState(%d) returned having superseded instance %d whose context is still live", st, in.id)
-						}
-					}
+					mustBeCancelled(fmt.Sprintf("SetState(%d)", st), before)
 				}
 			})
 		case "restart":
 			hm.Lock()
 			var want bool
-			var superseded []*instance
+			var before []*instance
 			pendingMut[label] = func() {
-				var cur *mTok
-				if m.rec != nil {
-					cur = m.rec.tok
-				}
+				before = activeNow()
 				want = m.RestartRoutine()
-				if want && cur != nil && cur.inst != nil && !cur.inst.returned {
-					superseded = append(superseded, cur.inst)
-				}
 			}
 			hm.Unlock()
 			c.Go(label, func() {
@@ -768,12 +732,10 @@ func body(c *sched.Ctl, cs Case, v *ev.Verdict) {
 				hm.Lock()
 				defer hm.Unlock()
 				if got != want {
-					fail("C14", "routine:restart-result", "RestartRoutine returned %v, the machine says %v (ctx=%d routine=%v)", got, want, m.ctxID, m.rec != nil)
+					noteResult("routine:restart-result")
 				}
-				for _, in := range superseded {
-					if in.ctx.Err() == nil {
-						fail("C05", "routine:superseded-not-cancelled", "RestartRoutine returned true having superseded instance %d whose context is still live", in.id)
-					}
+				if got {
+					mustBeCancelled("RestartRoutine", before)
 				}
 			})
 		case "finish":
@@ -981,6 +943,9 @@ func body(c *sched.Ctl, cs Case, v *ev.Verdict) {
 	}
 	if cs.State {
 		v.Class("state-container")
+	}
+	if resultDeviations > 0 {
+		v.Class("mutator-return-value-differs-from-machine")
 	}
 }
 
